@@ -237,3 +237,69 @@ def builtin_shims():
         "max": v_max, "min": v_min, "abs": v_abs, "float": v_float, "int": v_int, "bool": v_bool,
         "len": v_len, "zip": v_zip, "range": v_range, "dict": v_dict,
     }
+
+
+# ---- generic range-loop cut ---------------------------------------------------------------------------
+class RangeLoop(LoopSpec):
+    """`for k in range(a, b, +-1)` cut at an invariant.
+
+    Subclasses provide
+      inv(env, k, mode)    -> [(clause name, z3 term)]; mode is "prove" or "assume"; `k` is the next index to process
+      havoc_state(L, env)  -> dict of havocked locals (the loop target is handled here); may replace heap objects
+    """
+    prefix = "loop"
+
+    def inv(self, L, env, k, mode):
+        raise NotImplementedError
+
+    def havoc_state(self, L, env):
+        return {}
+
+    def begin(self, L, iterable, env):
+        if isinstance(iterable, SRange):
+            a, b, st = iterable.start, iterable.stop, iterable.step
+        elif isinstance(iterable, builtins.range):
+            a, b, st = iterable.start, iterable.stop, iterable.step
+        else:
+            raise StaleContract(f"{self.prefix}: the loop no longer iterates over a range")
+        if st not in (1, -1):
+            raise StaleContract(f"{self.prefix}: range step {st}")
+        L.st.update(a=it(a), b=it(b), step=st)
+        c = L.c
+        # an empty range: start already beyond stop
+        k0 = it(a)
+        L.st["empty"] = (k0 <= it(b)) if st == -1 else (k0 >= it(b))
+        first = z3.If(L.st["empty"], it(b), k0)
+        for nm, t in self.inv(L, env, first, "prove"):
+            c.oblige(f"{self.prefix}.init.{nm}", t)
+
+    def havoc(self, L, env):
+        c = L.c
+        out = dict(self.havoc_state(L, env))
+        k = z3.Int(c.fresh_name(self.prefix + ".k"))
+        L.st["k"] = k
+        a, b, st = L.st["a"], L.st["b"], L.st["step"]
+        if st == -1:
+            c.assume(z3.And(b <= k, z3.Or(k <= a, k == b)))
+        else:
+            c.assume(z3.And(k <= b, z3.Or(a <= k, k == b)))
+        env2 = dict(env)
+        env2.update(out)
+        for nm, t in self.inv(L, env2, k, "assume"):
+            c.assume(t)
+        return out
+
+    def iterate(self, L, env):
+        k, b = L.st["k"], L.st["b"]
+        return bool(SB(k != b))
+
+    def target(self, L):
+        return SI(L.st["k"])
+
+    def end(self, L, env):
+        k = L.st["k"] + L.st["step"]
+        for nm, t in self.inv(L, env, k, "prove"):
+            L.c.oblige(f"{self.prefix}.preserve.{nm}", t)
+
+    def exit(self, L, env):
+        pass
